@@ -34,7 +34,8 @@ fn observe_position(r: &Run, op: &Op, pre: &Snap, o: &mut PreObs) {
         o.out_spot = r.w.output_amount(r.vi, p.direction.clone(), p.size.value).ok();
         o.out_twap = r.w.output_twap(r.vi, p.direction.clone(), p.size.value).ok();
         o.spot_price = r.w.spot_price(r.vi).ok();
-        o.oracle = r.w.underlying_price(r.vi).ok();
+        // (the configured feed's latest price by the harness's own record of its submissions)
+        o.oracle = r.w.oracle_ledger.or(r.w.underlying_price(r.vi).ok());
         o.pos = Some(p.clone());
     }
 }
